@@ -16,12 +16,14 @@ Import ListNotations.
 Local Open Scope Z_scope.
 
 (* more fuel does not change an answer *)
-Lemma half_loop_mono : forall f k m e r,
-  Leaf2.halfFloatToFloatBits_loop1 f m e = Ok r -> Leaf2.halfFloatToFloatBits_loop1 (f + k) m e = Ok r.
+(* stated and proved without naming the loop condition or the order of the two state variables (the translator
+   lists them in declaration order: swapping the independent initialisations of m and e swaps the arguments) *)
+Lemma half_loop_mono : forall f k a b r,
+  Leaf2.halfFloatToFloatBits_loop1 f a b = Ok r -> Leaf2.halfFloatToFloatBits_loop1 (f + k) a b = Ok r.
 Proof.
-  induction f as [| f IH]; intros k m e r H; [discriminate |].
-  cbn [Leaf2.halfFloatToFloatBits_loop1 Nat.add] in *.
-  destruct (Z.land m 1024 =? 0); [apply IH; exact H | exact H].
+  induction f as [| f IH]; intros k a b r H; [discriminate |].
+  cbn [Leaf2.halfFloatToFloatBits_loop1 Nat.add] in *. revert H.
+  match goal with |- context [if ?c then _ else _] => destruct c end; intro H; [apply IH; exact H | exact H].
 Qed.
 
 Lemma half_mono : forall f k h r,
@@ -75,11 +77,15 @@ Qed.
 
 Definition byte (x : Z) : Prop := 0 <= x < 256.
 
+(* the same with the operands of | the other way round (| is commutative: `hi<<8 | lo` or `lo | hi<<8`) *)
+Lemma lor_shl_add_c : forall x y k, 0 <= k -> 0 <= x < 2 ^ k -> 0 <= y -> Z.lor (shl y k) x = x + y * 2 ^ k.
+Proof. intros x y k Hk Hx Hy. rewrite Z.lor_comm. apply lor_shl_add; assumption. Qed.
+
 Lemma uint16_tie : forall a b, byte a -> byte b -> Leaf2.bigenHelper_Uint16 [a; b] = be_val 0 [a; b].
 Proof.
   unfold byte. intros a b Ha Hb. unfold Leaf2.bigenHelper_Uint16. cbv zeta. cbn [nth be_val].
   rewrite wrapu_id by (unfold in_u, shl; rewrite Z.shiftl_mul_pow2 by lia; lia).
-  rewrite lor_shl_add by lia. lia.
+  first [rewrite lor_shl_add by lia | rewrite lor_shl_add_c by lia]. lia.
 Qed.
 
 Lemma uint32_tie : forall a b c d, byte a -> byte b -> byte c -> byte d ->
